@@ -56,6 +56,22 @@ func runCase(c Config, tier tierRules) *CaseResult {
 	return res
 }
 
+// heavyCase: some engine of the configuration executes a huge reallocation in this tier.
+func heavyCase(c Config, tier tierRules) bool {
+	if !c.Huge() || c.Alloc != "go" || c.CapMax || c.Min >= c.Bound() {
+		return false
+	}
+	for _, e := range engines {
+		x := &explorer{cfg: c, engine: e, tier: tier}
+		for _, src := range sources(c) {
+			if x.allowHugeRealloc(0, c.Min, Op{src, c.Bound() - c.Min}) {
+				return true
+			}
+		}
+	}
+	return false
+}
+
 // ---------------------------------------------------------------- child
 
 func childMain() {
@@ -197,8 +213,8 @@ func replayMain(file string) {
 		}
 	}
 	fmt.Printf("replay: %d distinct violation signatures, original signature reproduced: %v\n", len(res.Viols), same)
-	if len(res.Viols) > 0 {
-		os.Exit(1)
+	if same || (len(res.Viols) > 0 && (doc.Signature == "" || strings.HasPrefix(doc.Signature, "child:"))) {
+		os.Exit(1) // it still fails
 	}
 	os.Exit(0)
 }
@@ -231,10 +247,16 @@ func main() {
 		return
 	}
 
-	var small, huge []int
+	// "heavy" cases execute at least one Go-allocator reallocation to a multi-GiB size, i.e. make 4 GiB
+	// resident for a few seconds: at most 4 of them run at a time. Other multi-GiB cases stay virtual
+	// (< 0.5 GiB resident, mostly heap metadata) and are scheduled like small ones.
+	var small, huge, heavy []int
 	for i, c := range cfgs {
 		if c.Huge() {
 			huge = append(huge, i)
+		}
+		if heavyCase(c, tier) {
+			heavy = append(heavy, i)
 		} else {
 			small = append(small, i)
 		}
@@ -299,8 +321,8 @@ func main() {
 		samples.Add(res.Sample)
 	}
 
-	hugeQ := make(chan int, len(huge))
-	for _, i := range huge {
+	hugeQ := make(chan int, len(heavy))
+	for _, i := range heavy {
 		hugeQ <- i
 	}
 	close(hugeQ)
@@ -332,7 +354,7 @@ func main() {
 		go func(w int) {
 			defer wg.Done()
 			if w < hugeWorkers {
-				work(hugeQ) // at most 4 multi-GiB cases at a time
+				work(hugeQ) // at most 4 cases with resident multi-GiB buffers at a time
 			}
 			work(smallQ)
 		}(w)
@@ -353,6 +375,7 @@ func main() {
 		"max_absent":               true,
 		"configurations":           len(cfgs),
 		"configurations_multi_GiB": len(huge),
+		"configurations_with_resident_multi_GiB_buffers(max 4 at a time)": len(heavy),
 		"engines":                  engines,
 		"sources":                  "local: guest, guestf(fused), host; imported: guest(owner), iguest, iguestf(importer), host",
 		"delta_alphabet":           "0,1,2,bound-cur,bound-cur+1,max-cur,max-cur+1,65535,65536,2^31,2^32-1",
@@ -360,7 +383,7 @@ func main() {
 		"state_key":                map[bool]string{false: "(pages, capacity)", true: "(pages, capacity, source of last successful grow)"}[tier.KeyLastSrc],
 		"huge_realloc_rule": map[string]string{
 			"quick":    "Go-allocator reallocation to >=65535 pages: 2 transitions (compiler; min=1, max absent; local limit=65535 by the fused guest function, imported limit=65536 by the host); resulting states are leaves",
-			"thorough": "from every initial state straight to the bound by the host and the fused guest function; for (min=1, max absent) declarations by every source and the resulting states are expanded; elsewhere resulting states are leaves",
+			"thorough": "from every initial state straight to the bound, by the host or by the fused guest function (fixed parity of the configuration); for (min=1, max absent) declarations by every source and the resulting states are expanded; elsewhere resulting states are leaves",
 		}[tier.Name],
 		"per_class":                perClass,
 		"wall_children_s":          float64(int(time.Since(t0).Seconds()*10)) / 10,
@@ -372,7 +395,7 @@ func main() {
 			"evaluations = individual comparisons implementation-vs-reference; distinct = distinct states (rejected configurations have none)",
 		Samples: samples.List(), Exhaustive: true, Outcomes: out, Bounds: bounds,
 		Extra: map[string]any{
-			"cases_run": casesDone, "configurations_without_states(rejected)": rejected, "child_crashes": crashes,
+			"cases_run": casesDone, "configurations_without_states(compile_rejected_incl_known_finding)": rejected, "child_crashes": crashes,
 			"instances": total.Instances, "replayed_prefix_steps": total.ReplaySteps, "max_depth_reached": total.MaxDepth,
 			"huge_realloc_executed": total.HugeRealloc, "huge_realloc_outside_tier_bound": total.SkippedHR,
 		},
